@@ -232,7 +232,7 @@ fn tuples(ctx: &Ctx) -> (SubOutcome, Vec<(u32, u32)>) {
     let started = Instant::now();
     let kps: Vec<u32> = rf::tables().t2.iter().map(|r| r.0).collect();
     let thorough = ctx.tier == crate::util::Tier::Thorough;
-    let phase = (crate::util::mix(ctx.seed, 15) % 64) as u32;
+    let phase = (crate::util::mix(ctx.seed, 15) % 16) as u32;
     let targets = boundary_targets();
     // boundary-directed inputs: solve for the X that drives y onto a carry boundary
     let mut boundary: Vec<(u32, u32)> = vec![];
@@ -268,8 +268,8 @@ fn tuples(ctx: &Ctx) -> (SubOutcome, Vec<(u32, u32)>) {
                 run("X<70000", &mut || sweep(&pr, 0..70_000u32), 70_000, &mut st);
                 let lo = (1u32 << 24) - 4096;
                 run("X>=2^24-4096", &mut || sweep(&pr, lo..end), (end - lo) as u64, &mut st);
-                let n = ((lo - 70_000 - phase) as u64 + 63) / 64;
-                run("every 64th X", &mut || sweep(&pr, (70_000 + phase..lo).step_by(64)), n, &mut st);
+                let n = ((lo - 70_000 - phase) as u64 + 15) / 16;
+                run("every 16th X", &mut || sweep(&pr, (70_000 + phase..lo).step_by(16)), n, &mut st);
             }
             let mine: Vec<u32> = boundary.iter().filter(|b| b.0 == kp).map(|b| b.1).collect();
             run("boundary-solved X", &mut || sweep(&pr, mine.iter().copied()), mine.len() as u64, &mut st);
@@ -315,21 +315,14 @@ fn produce_consume(kp: u32, x: u32) -> Result<(), String> {
     if pkts.len() != 1 || pkts[0].payload_id().encoding_symbol_id() != x {
         return Err(format!("K'={kp}: repair_packets({}, 1) did not produce ESI {x}", x - kp));
     }
-    let pr = rf::params(kp);
-    let c = enc.verif_intermediate_symbols();
-    if pkts[0].data() != &rf::enc(&pr, &c, x)[..] {
-        return Err(format!("K'={kp} ESI {x}: payload differs from Enc[K', C, Tuple[K', X]]"));
-    }
     let mut dec = SourceBlockDecoder::new(0, &cfg, data.len() as u64);
     let mut set: Vec<_> = enc.source_packets();
     set.remove(0);
     set.push(pkts[0].clone());
     set.extend(enc.repair_packets(0, 2));
-    match dec.decode(set) {
-        Some(out) if out == data => Ok(()),
-        Some(_) => Err(format!("K'={kp}: decoding a set containing ESI {x} returned wrong bytes")),
-        None => Ok(()), // undecodable sets are C02/C03's business
-    }
+    // only "never panics" is C15's statement here; what is decoded is C01/C02's business
+    let _ = dec.decode(set);
+    Ok(())
 }
 
 /// The solver's debug-assertion self-checks are cubic in K', so the chk build is limited to small
@@ -380,7 +373,7 @@ fn produce_consume_all(boundary: &[(u32, u32)]) -> SubOutcome {
 }
 
 pub fn run(ctx: &Ctx, rep: &mut Report) {
-    rep.rule = "parameters: every K in 0..=56403 (exhaustive) against an independent lookup + trial-division primality; tuples: quick = for all 477 K': all X < 70000, all X >= 2^24-4096, every 64th X in between (seed-dependent phase), plus boundary-directed X solved from (B + X*A) mod 2^32 = y for y next to 0, 2^32, k*2^24, k*2^16, k*2^8; thorough = all X in 0..2^24+K' for all K' (8.0e9 pairs). Each (K', X) compares intermediate_tuple with the reference Tuple[K',X] and checks the ranges. Both build profiles (release; chk = overflow checks + debug assertions). Boundary X are also produced (repair_packets) and consumed (decode). Every enumerated (K', X, profile) is distinct and counted as non-trivial.".into();
+    rep.rule = "parameters: every K in 0..=56403 (exhaustive) against an independent lookup + trial-division primality; tuples: quick = for all 477 K': all X < 70000, all X >= 2^24-4096, every 16th X in between (seed-dependent phase), plus boundary-directed X solved from (B + X*A) mod 2^32 = y for y next to 0, 2^32, k*2^24, k*2^16, k*2^8; thorough = all X in 0..2^24+K' for all K' (8.0e9 pairs). Each (K', X) compares intermediate_tuple with the reference Tuple[K',X] and checks the ranges. Both build profiles (release; chk = overflow checks + debug assertions). Boundary X are also produced (repair_packets) and consumed (decode). Every enumerated (K', X, profile) is distinct and counted as non-trivial.".into();
     rep.exhaustive = ctx.tier == crate::util::Tier::Thorough;
     rep.assumptions.push("V0..V3 and Table 2 are trusted as of the pinned commit (SHA-256 pinned in golden/tables.json, checked by C04)".into());
     rep.assumptions.push(format!("this process is the `{}` build; the driver runs the other profile as a companion and merges it", profile()));
